@@ -194,11 +194,17 @@ def _gen_config_tree(rnd, ndst, profile):
         pkt = {}
         sizes_min = 16
         # total/content size: the same type most of the time (docs: total size must be at least as wide)
-        if rnd.random() < 0.6:
+        r_sz = rnd.random()
+        if r_sz < 0.55:
             csz = rnd.randint(sizes_min, 64)
             tsz = rnd.randint(csz, 64)
             pkt['content-size-field-type'] = {'class': 'uint', 'size': csz, 'alignment': pick_align(rnd)}
             pkt['total-size-field-type'] = {'class': 'uint', 'size': tsz, 'alignment': pick_align(rnd)}
+        elif r_sz < 0.65:
+            # only one of the two stated: the other is the default 64-bit unsigned integer
+            pkt['content-size-field-type'] = {'class': 'uint', 'size': rnd.randint(sizes_min, 64), 'alignment': pick_align(rnd)}
+        elif r_sz < 0.7:
+            pkt['total-size-field-type'] = {'class': 'uint', 'size': 64, 'alignment': pick_align(rnd)}
         if clk:
             r = rnd.random()
             if r < 0.2:
